@@ -194,8 +194,8 @@ def encode (c : Cmd) : PyRes (List Nat) :=
   match atxPrefixTable.lookup c.frame.bits with
   | none => .error .KeyError
   | some p =>
-    let prefix := if c.sendtwice && c.frame.bits == 16 then 116 else p   -- 't'
-    .ok ([prefix] ++ (bytesOf c.frame).flatMap (fun b => [hexDigit (b / 16), hexDigit (b % 16)]) ++ [10])
+    let pfx := if c.sendtwice && c.frame.bits == 16 then 116 else p   -- 't'
+    .ok ([pfx] ++ (bytesOf c.frame).flatMap (fun b => [hexDigit (b / 16), hexDigit (b % 16)]) ++ [10])
 
 def hexVal? (c : Nat) : Option Nat :=
   if 48 ≤ c ∧ c ≤ 57 then some (c - 48)
